@@ -304,3 +304,24 @@ def with_case_facts(fn, facts_list):
             if len({show(x[0]) for x in es}) == 1:
                 out.append(('case', es[0][0], tuple(x[1] for x in es)))
     return out
+
+
+def expand_helper_calls(facts, facts_list):
+    """truth facts on a call of a formula helper (core.inline_expr: `static bool isX(a) { return <expression>; }`) are replaced by
+    the literals of the expression with the arguments put in: a predicate that was given a name reads like the predicate itself"""
+    from .core import inline_expr, subst
+    out = []
+    for f in facts_list:
+        if f[0] == 'truth' and isinstance(strip(f[1]), dict) and 'callee' in strip(f[1]):
+            ie = inline_expr(facts, strip(f[1]))
+            if ie is not None:
+                e = subst(ie[0], {p_['id']: a_ for p_, a_ in ie[1]})
+                while isinstance(e, dict) and (e.get('k') or '').endswith('CastExpr') and 'e' in e:
+                    e = e['e']
+                out += literals(e, f[2])
+                continue
+        if f[0] == 'or':
+            out.append(('or', [expand_helper_calls(facts, alt) for alt in f[1]]))
+            continue
+        out.append(f)
+    return out
